@@ -24,7 +24,8 @@ def run_generator(plugin: str, out_dir: str, models: Optional[Sequence[str]] = N
 
     spelling: "default"  - run from REPO with absolute paths;
               "cwd"      - the same command from an unrelated working directory;
-              "relative" - from the parent of the output directory, every path given relative to it."""
+              "relative" - from the parent of the output directory, every path given relative to it;
+              "minpath"  - as default, with a search path that holds no developer tools."""
     test_dir = os.path.join(out_dir, "_tests")
     cwd = REPO
     tmp_cwd = None
@@ -40,6 +41,8 @@ def run_generator(plugin: str, out_dir: str, models: Optional[Sequence[str]] = N
     env["PYTHONHASHSEED"] = str(hashseed)
     env["PYTHONPATH"] = REPO
     env["PYTHONDONTWRITEBYTECODE"] = "1"
+    if spelling == "minpath":   # no developer tools (formatters, cargo, dotnet) on the search path
+        env["PATH"] = "/usr/bin:/bin"
     try:
         return subprocess.run(cmd, cwd=cwd, env=env, capture_output=True, text=True, timeout=timeout)
     finally:
